@@ -206,7 +206,8 @@ class PseudotrajCheck(Check):
             "quaternions of either sign incl. identity, positions incl. 0 and ~100 A); the generators are advanced one "
             "frame at a time in seeded order, cancelled mid-way and restarted, drained via get_pt_as_universe and read "
             "in random order twice, one-molecule views taken, PtWriter driven to memory / .xtc / a directory of .xyz files "
-            "(optionally write_structure first), global RNG perturbed in between; a few yielded frames are kept and judged "
+            "(optionally write_structure first; in half of the file-writing runs the output paths still hold the files of an "
+            "earlier or interrupted run, newer or older than the grid file), global RNG perturbed in between; a few yielded frames are kept and judged "
             "again at the end. Molecules may carry a massless virtual site; rows include rotations at the boundary of the "
             "identity and of a half turn. Every frame is compared "
             "atom by atom (1e-4 A) with x' = R(q_k)(x_ref - com) + com + p_k, R by an independent formula. "
@@ -798,7 +799,9 @@ class AssignmentCheck(Check):
             "a second molecule with three distinct principal moments (water or generated, planar included) around a "
             "first molecule, assigned with AssignmentTool on a real FullGrid array through SimPool (seeded worker "
             "count, chunk size, chunk order, duplicated chunk delivery); or one back-assignment of the library's own "
-            "pseudotrajectory. Every frame outside the boundary margin (1e-3 A / 2e-3 rad) must get index "
+            "pseudotrajectory; in 30% of the runs an analysis on a neighbouring grid (same rotation/direction grids, same "
+            "innermost and outermost radius, interior radii elsewhere) was done earlier in the same process. Every frame "
+            "outside the boundary margin (1e-3 A / 2e-3 rad) must get index "
             "(t*n_o+o)*n_b+b of the geometric reference model, NaN beyond the outer bound. Non-trivial: >=20 frames "
             "judged and a pool schedule with >=2 chunks. Distinct = distinct hash of (grid sizes, molecule kind, walk "
             "mode, pool plan).")
